@@ -97,4 +97,61 @@ def mappedPreFix : List Entry := registry
 
 def howOf (handlers : List (String × String)) (method : String) : String := (handlers.lookup method).getD "WrapError"
 
+/-! ## the handler as a whole, and the lease requests of a real node
+
+A handler of `chord.Server` hands the request to the local node (`r.LocalNode.<op>(…request fields…)`, or to the node
+factory for the peer argument) and performs NO check of its own: it answers with an error exactly when that call
+returned one, and the error is that very error through the handler's wrapping (`Gen.C14.handlerReturns`: every error
+return of every handler has the handler's form and returns the `err` of such a call). -/
+
+/-- what the handler puts on the wire when the local node's call returned `loc` (`none` = success) -/
+def serve (known : List Entry) (how key : String) (loc : Option GoErr) : Option Wire :=
+  loc.map (wrapErr known how key)
+
+/-- what the remote caller gets for that request (`none` = no error) -/
+def callerSees (known mapped : List Entry) (how key : String) (loc : Option GoErr) : Option GoErr :=
+  (serve known how key loc).map (mapper mapped)
+
+/-- a known sentinel by its Go name (an error with that name as its text if the source no longer has it) -/
+def errNamed (known : List Entry) (name : String) : GoErr :=
+  match known.find? (fun e => e.name == name) with
+  | some e => .reg e
+  | none => .opaque name
+
+/-- one second, in nanoseconds (`time.Duration` is an int64 count of nanoseconds) -/
+def second : Int := 1000000000
+
+/-- `durationGuard` of the KV providers (kv/memory/lease.go, kv/sqlite3/lease.go): `t.Truncate(time.Second)` — rounds
+toward zero — must be at least a second -/
+def ttlOk (ttl : Int) : Bool := decide (second ≤ ttl.tdiv second * second)
+
+inductive LeaseOp where
+  | acquire | renew | release
+  deriving DecidableEq, Repr
+
+/-- the lease as the request finds it: not held; held and the request presents the current token; held and the
+request presents another token (`Acquire` presents none); held once with the presented token but its time is up -/
+inductive LeaseSt where
+  | free | heldMine | heldOther | lapsed
+  deriving DecidableEq, Repr
+
+/-- the error a node that owns the lease answers a lease request with (kv/memory/lease.go behind
+`LocalNode.Acquire/Renew/Release`), `none` = granted. The ttl is checked FIRST, by the provider, for Acquire and Renew. -/
+def leaseOutcome (known : List Entry) (op : LeaseOp) (ttl : Int) (st : LeaseSt) : Option GoErr :=
+  match op with
+  | .acquire =>
+    if !ttlOk ttl then some (errNamed known "ErrKVLeaseInvalidTTL") else
+    match st with
+    | .heldMine | .heldOther => some (errNamed known "ErrKVLeaseConflict")
+    | .free | .lapsed => none
+  | .renew =>
+    if !ttlOk ttl then some (errNamed known "ErrKVLeaseInvalidTTL") else
+    match st with
+    | .heldMine => none
+    | .free | .heldOther | .lapsed => some (errNamed known "ErrKVLeaseExpired")
+  | .release =>
+    match st with
+    | .heldMine | .lapsed => none
+    | .free | .heldOther => some (errNamed known "ErrKVLeaseExpired")
+
 end Specter.C14
